@@ -149,6 +149,17 @@ Definition load_text (disabled : bool) (mapping : str -> str) (s : str) : str :=
 Definition load_text_sentinel (disabled : bool) (mapping : str -> str) (s : str) : str :=
   if disabled then s else load_expand_sentinel mapping s.
 
+(* The keys that a map of the loaded project (processes, env_cmds, vars) holds for ONE key scalar of the file.
+   Unchanged code: the raw text is decoded on top of the project that was decoded from the expanded text
+   (yaml.v2 reuses a non-nil map), so with expansion disabled the entry under the expanded key survives
+   next to the entry under the raw key whenever the two differ.
+   After fixes/F35-disabled-expansion-fresh-project.diff the raw text is decoded into a fresh project. *)
+Definition loaded_keys_orig (disabled : bool) (mapping : str -> str) (key : str) : list str :=
+  let e := load_expand_sentinel mapping key in
+  if disabled then (if str_eqb e key then [key] else [key; e]) else [e].
+Definition loaded_keys (disabled : bool) (mapping : str -> str) (key : str) : list str :=
+  [load_text disabled mapping key].
+
 (* os.Getenv over the process environment followed by the .env files in the order given:
    the first definition of a name wins, an undefined name gives "" *)
 Fixpoint getenv (env : list (str * str)) (name : str) : str :=
